@@ -1,5 +1,5 @@
 """C04 -- REQ/REP: replies reach only the matching outstanding request."""
-from ..core import walk, show, const_of, last_field, truth_of, apath, is_null, AnalysisBroken, same_expr
+from ..core import strip_addr, walk, show, const_of, last_field, truth_of, apath, is_null, AnalysisBroken, same_expr
 from .. import guards as G
 from ..hops import check_hop_loop, HOP_FUNCS
 
@@ -353,6 +353,46 @@ def strip(n):
     return n
 
 
+# ---------------------------------------------------------------------------
+# R8: an id registered for a request that is then refused is retired again
+
+def rule_r8(ctx):
+    r = ctx.rule("C04.R8", "T2", "an id registered for an exchange that does not start is retired: in a send function that registers the "
+                 "context under a fresh id (nni_id_alloc32 into the socket's map) and then asks nni_aio_start, the edge on which "
+                 "the start is refused reaches the exit only through nni_id_remove on that map -- otherwise the idle context "
+                 "stays addressable and a stray message carrying that id is delivered to its next receive as if it were a reply", floor=1)
+    prog = ctx.prog
+    n = 0
+    for f in prog.functions:
+        if f.cfg_failed or "/sp/protocol/" not in "/" + f.file:
+            continue
+        allocs = [c for c in f.calls(("nni_id_alloc32", "nni_id_alloc")) if c.node["args"]]
+        starts = list(f.calls("nni_aio_start"))
+        if not allocs or not starts:
+            continue
+        for a in allocs:
+            m = last_field(strip_addr(f.expand(a.node["args"][0])))
+            refused = {b: 1 - k for b, k in G.nz_edges(f, lambda x: x.get("k") == "call" and x.get("fn") == "nni_aio_start").items()}
+            if not refused:
+                continue
+            rem = {(c.b, c.i) for c in f.calls("nni_id_remove") if c.node["args"] and last_field(strip_addr(f.expand(c.node["args"][0]))) == m}
+            for b, k in refused.items():
+                tgt = f.blocks[b].succs[k]
+                if tgt is None or (b, len(f.blocks[b].elems)) not in f.reach((a.b, a.i + 1)) and (b, 0) not in f.reach((a.b, a.i + 1)):
+                    continue
+                n += 1
+                off = G.must_pass(f, (tgt, 0), rem)
+                if off is None:
+                    r.ob(f, "refused start after registering in %s: the id is removed before the function returns" % m)
+                else:
+                    ctx.fail(r, f, "id left registered after a refused start", f.line_of(b, 0),
+                             "%s registers the context in %s (line %s); when nni_aio_start refuses the operation (line %s) it "
+                             "returns without nni_id_remove: the id keeps pointing at an idle context, and a message carrying it "
+                             "is accepted as a reply" % (f.name, m, a.line, f.line_of(b, 0)))
+    if n < 1:
+        raise AnalysisBroken("no send function registers an id and then asks nni_aio_start")
+
+
 def run(ctx):
     ctx.guard(rule_r1)
     ctx.guard(rule_r2)
@@ -361,4 +401,5 @@ def run(ctx):
     ctx.guard(rule_r5)
     ctx.guard(rule_r6)
     ctx.guard(rule_r7)
+    ctx.guard(rule_r8)
     ctx.guard(rule_hops)
